@@ -17,7 +17,9 @@ RULE = ("Exhaustive shape family: context {top level, function, closure} x loop 
         "wrapper) x innermost exit {normal, break, continue, return} x probe "
         "{read of the dead `v` after the loop -> must raise `No such variable`, read of a same-named outer variable "
         "-> must print the outer value, read later in the same iteration after the wrapper, the same two reads of the "
-        "loop variable itself}; plus random G-core "
+        "loop variable itself}; the same family written as top-level code of a JSON-session request (loop {none, "
+        "while, for}, where `return` ends the request but the top-level frame lives on) with the read sent as the next "
+        "request; plus random G-core "
         "programs (early-exit biased, shadowing on) followed by a read of a name that is only ever bound in dead "
         "blocks. Non-trivial = exit is break/continue/return and nesting depth >= 1 (shape family) or the program "
         "has a loop with an early exit (random); distinct = distinct source text.")
@@ -241,11 +243,94 @@ def check_random(case, ctx) -> Res:
     return Res(ok=True, nontrivial="loop-early-exit" in feats, classes=tuple("has:" + f for f in feats))
 
 
+# ---- top-level blocks left in a session: the top-level frame outlives the request ----------------------------------
+
+def wrap_text(w, inner):
+    if w == "if":
+        return "if flag { " + inner + " }"
+    if w == "else":
+        return 'if flag == False { println("then") } else { ' + inner + " }"
+    if w == "some":
+        return "match Some(3) { Some(p) => { " + inner + " } None => {} }"
+    return "match nothing { Some(p) => {} None => { " + inner + " } }"
+
+
+def enum_session(tier):
+    """request 1: top-level code that enters blocks binding `v` (and a loop variable) and leaves them by normal
+    completion / break / continue / return; request 2: a read of the name, which is dead or is an outer variable"""
+    seen = set()
+    for loop in ("none", "while", "for"):
+        for d in range(0, 3):
+            for wraps in itertools.product(WRAPS, repeat=d):
+                for exit_ in ("normal", "break", "continue", "return"):
+                    if loop == "none" and (exit_ in ("break", "continue") or d == 0):
+                        continue
+                    for let_level in range(d, -1, -1):
+                        if loop == "none" and let_level == 0:
+                            continue
+                        for probe in ("dead", "outer") + (("dead-loopvar",) if loop == "for" else ()):
+                            decl = "let v = 7 println(string_repr(v))"
+                            ex = {"normal": "", "break": " break", "continue": " continue", "return": " return"}[exit_]
+                            inner = (decl if let_level == d else "println(\"in\")") + ex
+                            for j in range(d - 1, -1, -1):
+                                inner = wrap_text(wraps[j], inner)
+                                if let_level == j and j > 0:
+                                    inner = decl + " " + inner
+                            if let_level == 0 and d > 0:
+                                inner = decl + " " + inner
+                            head = "let flag = True\nlet nothing: Option<Int> = None\n"
+                            if probe == "outer":
+                                head += "let v = 100\n"
+                            if loop == "while":
+                                code = head + "let i1 = 0\nwhile i1 < 2 { i1 += 1 " + inner + " }"
+                            elif loop == "for":
+                                code = head + "for it in [1, 2] { " + inner + " }"
+                            else:
+                                code = head + inner
+                            name = "it" if probe == "dead-loopvar" else "v"
+                            key = (code, name)
+                            if key in seen:
+                                continue
+                            seen.add(key)
+                            yield {"src": code, "probe": name, "want": "100" if probe == "outer" else None,
+                                   "shape": ["session", loop, list(wraps), exit_, probe, let_level]}
+
+
+def check_session(case, ctx) -> Res:
+    from ..session import req_run, run_session, summarize
+    loop, wraps, exit_, probe, let_level = case["shape"][1:6]
+    cls = (f"exit:{exit_}", f"depth:{len(wraps)}", f"probe:{probe}", "ctx:session-top", f"loop:{loop}")
+    res = run_session(ctx, [req_run(case["src"]), req_run(case["probe"])], timeout=60)
+    if res.run.timed_out:
+        return Res(ok=True, inconclusive=True, detail="timeout\n" + case["src"])
+    if res.run.crashed:
+        return fail(res.run.crash_sig(), f"session crashed\n{res.run.err[-400:]}\n--- request 1\n{case['src']}", classes=cls)
+    rs = res.responses()
+    if len(rs) != 2:
+        return fail("session answered the wrong number of requests", f"{len(rs)} responses\n--- request 1\n{case['src']}", classes=cls)
+    t1 = summarize(rs[0][2])
+    if t1[0] != "value":
+        return Res(ok=True, inconclusive=True, detail=f"harness program does not run: {t1}\n{case['src']}")
+    tag, text, _ = summarize(rs[1][2])
+    if case["want"] is None:
+        ok = tag == "error" and "No such variable" in (text or "")
+    else:
+        ok = tag == "value" and text == case["want"]
+    if not ok:
+        sig = (f"block-local variable still visible in the session after `{exit_}`" if case["want"] is None
+               else f"outer variable hidden in the session after `{exit_}`")
+        return fail(sig, f"shape {case['shape']}\n--- request 1\n{case['src']}\n--- request 2\n{case['probe']}\n"
+                         f"--- expected {'No such variable' if case['want'] is None else case['want']}\n--- got {tag}: {text}",
+                    classes=cls)
+    return Res(ok=True, nontrivial=exit_ != "normal" and len(wraps) >= 1, classes=cls)
+
+
 def show(case):
     return case["src"]
 
 
 SUBS = [
     Sub("shapes", check_shape, enum=enum_shapes, show=show),
+    Sub("session-toplevel", check_session, enum=enum_session, show=show),
     Sub("random-dead-read", check_random, gen=gen_random, cases={"quick": 800, "thorough": 20000}, show=show),
 ]
